@@ -448,13 +448,23 @@ type connectSpec struct {
 	user   string
 	pass   string
 	origin string
-	will   int // length of the will message (0 = the default three bytes)
+	will   int // length of the will message (0 = the default three bytes, -1 = a zero-length will message)
+	ka     int // keep-alive: 0 = the default 60 s, -1 = keep-alive 0 (none), else the value
 }
 
 func (cs connectSpec) packet() *codec.Packet {
 	p := &codec.Packet{Type: codec.CONNECT, ProtoName: cs.name, Level: cs.level, ConnectFlags: cs.flags, KeepAlive: 60, ClientID: []byte(cs.id)}
+	switch {
+	case cs.ka < 0:
+		p.KeepAlive = 0
+	case cs.ka > 0:
+		p.KeepAlive = uint16(cs.ka)
+	}
 	if p.WillFlag() {
 		p.WillTopic, p.WillMessage = []byte("c11/will"), []byte("bye")
+		if cs.will < 0 {
+			p.WillMessage = []byte{}
+		}
 		if cs.will > 0 {
 			p.WillMessage = make([]byte, cs.will)
 			for i := range p.WillMessage {
@@ -494,6 +504,29 @@ func enumC11(emit func(C11Case)) {
 						for _, clean := range []byte{0, 2} {
 							cs := connectSpec{name: name, level: lv, flags: cred.f | clean, id: id, user: cred.user, pass: cred.pass}
 							emit(C11Case{Auth: a, First: codec.Encode(cs.packet()), Origin: fmt.Sprintf("CONNECT %s/%d flags=%08b id=%q user=%q pass=%q", name, lv, cs.flags, id, cred.user, cred.pass), Then: "packets"})
+						}
+					}
+				}
+			}
+		}
+	}
+	// acceptable CONNECTs whose optional fields are present and empty, with the keep-alive values
+	// and the empty identifier for which the broker rewrites the CONNECT it keeps
+	for _, ka := range []int{0, -1, 1, 65535} {
+		for _, id := range []string{"abc123", ""} {
+			for _, cred := range []struct {
+				f          byte
+				user, pass string
+			}{{0, "", ""}, {128 | 64, "user", "pass"}, {128 | 64, "user", ""}, {128, "user", ""}, {128 | 64, "", ""}, {128, "", ""}} {
+				for _, will := range []int{0, 1, -1} {
+					for _, clean := range []byte{0, 2} {
+						for _, a := range []string{"", fix.AuthUserPass} {
+							cs := connectSpec{name: "MQTT", level: 4, flags: cred.f | clean, id: id, user: cred.user, pass: cred.pass, ka: ka}
+							if will != 0 {
+								cs.flags |= 4
+								cs.will = will
+							}
+							emit(C11Case{Auth: a, First: codec.Encode(cs.packet()), Origin: fmt.Sprintf("CONNECT MQTT/4 flags=%08b id=%q user=%q pass=%q keep-alive %d will message %d bytes", cs.flags, id, cred.user, cred.pass, cs.packet().KeepAlive, len(cs.packet().WillMessage)), Then: "packets"})
 						}
 					}
 				}
